@@ -273,6 +273,38 @@ fn menu(extended: bool) -> Vec<MenuItem> {
 	v
 }
 
+/// deterministic incompressible bytes (xorshift64*): content for large jar entries, not a source of cases
+fn noise(n: usize, seed: u64) -> Vec<u8> {
+	let mut x = 0x9e37_79b9_7f4a_7c15u64 ^ seed.wrapping_mul(0xbf58_476d_1ce4_e5b9);
+	(0..n).map(|_| {
+		x ^= x >> 12;
+		x ^= x << 25;
+		x ^= x >> 27;
+		(x.wrapping_mul(0x2545_f491_4f6c_dd1d) >> 56) as u8
+	}).collect()
+}
+
+/// entries larger than any buffer a jar reader might fill in one go (incompressible, so large when deflated too)
+fn large_menu() -> Vec<MenuItem> {
+	let f = |b: &[u8]| Some(Item::File(b.to_vec()));
+	let big = |name: &str, fields: &[usize], seed: u64| {
+		let mut c = skeleton(name);
+		c.fields = fields.iter().map(|i| field_sym(*i)).collect();
+		c.unknown.push(SUnknown { name: js("Noise"), bytes: noise(90_000, seed) });
+		class_bytes(name, &c, &Encoding::default())
+	};
+	let same = big("net/minecraft/BigSame", &[0, 1], 11);
+	vec![
+		MenuItem { what: "filler so that positions shift", name: "assets/filler.txt", client: f(b"x"), server: f(b"x") },
+		MenuItem { what: "large resource equal on both sides", name: "assets/big-equal.bin", client: f(&noise(200_000, 1)), server: f(&noise(200_000, 1)) },
+		MenuItem { what: "large resource only in the client", name: "assets/big-client.bin", client: f(&noise(70_000, 2)), server: None },
+		MenuItem { what: "large resource only in the server", name: "data/big-server.bin", client: None, server: f(&noise(40_000, 3)) },
+		MenuItem { what: "large class identical on both sides", name: "net/minecraft/BigSame.class", client: f(&same), server: f(&same) },
+		MenuItem { what: "large class only in the server", name: "net/minecraft/server/BigS.class", client: None, server: f(&big("net/minecraft/server/BigS", &[2], 12)) },
+		MenuItem { what: "large class differing between the sides", name: "net/minecraft/BigDiff.class", client: f(&big("net/minecraft/BigDiff", &[1, 0], 13)), server: f(&big("net/minecraft/BigDiff", &[0, 2], 13)) },
+	]
+}
+
 fn subset_jars(menu: &[MenuItem], mask: u32, reversed: bool) -> (Entries, Entries) {
 	let mut c = Vec::new();
 	let mut s = Vec::new();
@@ -470,9 +502,9 @@ fn case_by_label(label: &str) -> Option<(Vec<u8>, Vec<u8>)> {
 			let kind = KINDS.into_iter().find(|k| k.name() == *kind)?;
 			Some((order_jar(kind, &seq_parse(c.strip_prefix("c=")?)?), order_jar(kind, &seq_parse(s.strip_prefix("s=")?)?)))
 		},
-		[tag @ ("entries" | "entries-extended"), subset, rest @ ..] => {
+		[tag @ ("entries" | "entries-extended" | "entries-large"), subset, rest @ ..] => {
 			let mask = u32::from_str_radix(subset.strip_prefix("subset0x")?, 16).ok()?;
-			let m = menu(*tag == "entries-extended");
+			let m = if *tag == "entries-large" { large_menu() } else { menu(*tag == "entries-extended") };
 			if mask >> m.len() != 0 {
 				return None;
 			}
@@ -553,6 +585,9 @@ fn main() {
 	entries = entries.merge(entry_space(ctx, &base_menu, "entries", &all_base, true, if quick { &BOTH[..1] } else { &BOTH }));
 	let ext_masks = extended_masks(base_menu.len(), full_menu.len(), !quick);
 	entries = entries.merge(entry_space(ctx, &full_menu, "entries-extended", &ext_masks, false, if quick { &BOTH } else { &BOTH[..1] }));
+	let big_menu = large_menu();
+	let all_big: Vec<u32> = (0..1u32 << big_menu.len()).collect();
+	entries = entries.merge(entry_space(ctx, &big_menu, "entries-large", &all_big, false, &BOTH));
 	let (warnings, other_stderr) = if captured { release_stderr() } else { (0, Vec::new()) };
 	for l in other_stderr.iter().take(20) {
 		eprintln!("{l}");
